@@ -67,9 +67,18 @@ class Norm:
             key = N(t[2]) if t[2] is not None else None
             return ('sload', t[1] if isinstance(t[1], str) else N(t[1]), key, t[3], t[4])
         if k == 'adt':
-            return ('adt', t[1], t[2], tuple((n, N(v)) for n, v in t[3]))
+            r = ('adt', t[1], t[2], tuple((n, N(v)) for n, v in t[3]))
+            # the CosmosMsg envelope written out by hand: CosmosMsg::Bank(m) is the message m (what Response::add_message builds anyway)
+            if t[1].startswith('cosmwasm_std::CosmosMsg') and t[2] == 'Bank' and len(r[3]) == 1 and r[3][0][1][0] == 'adt' and r[3][0][1][1].endswith('BankMsg'): return r[3][0][1]
+            return r
         if k == 'tup': return ('tup', tuple(N(x) for x in t[1]))
-        if k == 'vec': return ('vec', tuple(N(x) for x in t[1]))
+        if k == 'vec':
+            xs = tuple(N(x) for x in t[1])
+            # vec![Coin { denom, amount }] / vec![coin(a, d)] is coins(a, d)
+            if len(xs) == 1 and xs[0][0] == 'adt' and xs[0][1] == 'cosmwasm_std::Coin':
+                d = dict(xs[0][3])
+                if set(d) == {'denom', 'amount'}: return ('coins', d['amount'], d['denom'])
+            return ('vec', xs)
         if k == 'arr': return ('vec', tuple(N(x) for x in t[1]))
         if k == 'upd':
             return ('upd', N(t[1]), tuple((s, N(v)) for s, v in t[2]))
@@ -164,6 +173,8 @@ class Norm:
         name, targs, args = t[1], t[2], t[3]
         a = tuple(N(x) for x in args)
         if name in self.RC: return ('rcall', self.RC[name], a)
+        # Decimal::from_str_radix(s, 10) is the same parser as from_str (rust_decimal: both are parse_str_radix_10)
+        if name.endswith('Decimal::from_str_radix') and len(a) == 2 and a[1] == ('int', 10): return ('rcall', 'from_str', (a[0],))
         if name == 'conv':
             src, dst = targs
             if dst == 'rust_decimal::Decimal' and src in ('u128', 'i32', 'u64', 'i64', 'u32'): return a[0]
